@@ -512,11 +512,14 @@ func (txn *Txn) rollback() {
 func (txn *Txn) commit() {
 	defer txn.reset()
 
-	// Mark the dirty chunks from the updates
-	for _, u := range txn.updates {
-		u.RangeChunks(func(chunk commit.Chunk) {
-			txn.dirty.Set(uint32(chunk))
-		})
+	// Mark the dirty chunks from the updates. A replayed or restored transaction names its
+	// chunk itself: its buffers may carry runs of other chunks that must not be applied here.
+	if _, preset := txn.dirty.Min(); !preset {
+		for _, u := range txn.updates {
+			u.RangeChunks(func(chunk commit.Chunk) {
+				txn.dirty.Set(uint32(chunk))
+			})
+		}
 	}
 
 	// Grow the size of the fill list
